@@ -151,6 +151,14 @@ def prepare_pool(crate, n):
     os.makedirs(TARGET, exist_ok=True)
     os.makedirs(LOGS, exist_ok=True)
     sync_lock(crate)
+    lst = os.path.join(crate_dir(crate), "deasync.list")
+    if os.path.exists(lst):
+        files = [l.strip() for l in open(lst) if l.strip() and not l.startswith("#")]
+        p = subprocess.run([sys.executable, os.path.join(VERIF, "gen", "deasync.py"), os.path.join(crate_dir(crate), "gen")] + files,
+                           stdout=subprocess.PIPE, stderr=subprocess.STDOUT, text=True)
+        if p.returncode != 0:
+            log(f"[prepare] crate {crate}: de-sugaring failed:\n{p.stdout}")
+            return None
     pool = Pool(crate, n)
     d0 = pool.dir(0)
     triv = Harness(crate, "", "zz_nothing", {}, "")
@@ -331,6 +339,11 @@ def included_sources(crate):
     for src in glob.glob(os.path.join(crate_dir(crate), "src", "**", "*.rs"), recursive=True):
         for m in re.finditer(r'"(/repo/[^"]+)"', open(src).read()):
             out.add(m.group(1))
+    lst = os.path.join(crate_dir(crate), "deasync.list")
+    if os.path.exists(lst):
+        for l in open(lst):
+            if l.strip() and not l.startswith("#"):
+                out.add(l.strip())
     return sorted(out)
 
 
@@ -413,7 +426,9 @@ def main(argv):
         list(ex.map(work, hs))
 
     known = load_known()
-    open_kf = {f["id"]: f for f in known.get("findings", []) if f.get("status") == "open" and f.get("property") == prop}
+    # an open finding is keyed by the label of the assertion that exhibits it; a harness that serves several
+    # properties reports it under each of them (with the finding's own property named)
+    open_kf = {f["id"]: f for f in known.get("findings", []) if f.get("status") == "open"}
     kf_lines, inconclusive, violations = [], [], []
     for h in hs:
         r = results[h.full]
@@ -439,7 +454,7 @@ def main(argv):
         if (k, hn) in seen:
             continue
         seen.add((k, hn))
-        log(f"KNOWN-FINDING: property={prop} {k} harness={hn}: {open_kf[k].get('what', desc)}")
+        log(f"KNOWN-FINDING: property={prop} {k} (recorded for {open_kf[k].get('property')}) harness={hn}: {open_kf[k].get('what', desc)}")
     nviol = 0
     for h, r, unknown in violations:
         rep, err, vals = None, "solver returned no concrete values", None
